@@ -19,7 +19,7 @@ It must hold for: {rec['quantifier']['text']}.
 
 This is a LATER round; the obvious places have been used. Already tried by others (do NOT repeat these or close variants):
 """ + "\n".join(f" - {t}" for t in tried) + f"""
-Read the code yourself (start from {files}; follow it into the examples/ contracts that use these modules and into every entry point, getter, storage tier / TTL handling, event and limit that the property statement touches) and find something the others did not.
+Read the code yourself (start from {files}; follow it into the examples/ contracts that use these modules and into every entry point, getter, storage tier / TTL handling, event and limit that the property statement touches) and find something the others did not. Kinds of slip that are often overlooked: a value written to the wrong storage tier or with the wrong lifetime, an event or return value that no longer matches what was moved, two same-typed arguments swapped at one call site, a check moved after the effect it should guard, a boundary comparison off by one at a documented limit, a default trait method or example contract wired to the wrong helper, state left behind on a failure or early-return path.
 
 TASK: produce TWO independent source changes (A and B, touching different code sites / different clauses of the property) to the library or example contract code (NOT to tests), each of which
  (a) makes the code violate the property above;
